@@ -105,16 +105,47 @@ fn methods_walk(a: &ast::Aidl) -> String {
     traverse::walk_args(a, |m, x| w.push(format!("[{},{}]", esc(&m.name), range(&x.symbol_range))));
     format!("{{\"methods\":[{}],\"args\":[{}]}}", v.join(","), w.join(","))
 }
+fn annots(owner: &str, v: &[ast::Annotation], out: &mut Vec<String>) {
+    for a in v {
+        let mut kv: Vec<String> = a.key_values.iter().map(|(k, v)| format!("[{},{}]", esc(k), opt(v))).collect();
+        kv.sort();
+        out.push(format!("{{\"owner\":{},\"name\":{},\"params\":[{}]}}", esc(owner), esc(&a.name), kv.join(",")));
+    }
+}
+fn annots_json(a: &ast::Aidl) -> String {
+    let mut out = Vec::new();
+    match &a.item {
+        ast::Item::Interface(i) => {
+            annots("item", &i.annotations, &mut out);
+            for e in &i.elements { match e {
+                ast::InterfaceElement::Method(m) => {
+                    annots(&m.name, &m.annotations, &mut out);
+                    for (k, x) in m.args.iter().enumerate() { annots(&format!("{}#{}", m.name, k), &x.annotations, &mut out); }
+                }
+                ast::InterfaceElement::Const(c) => annots(&c.name, &c.annotations, &mut out),
+            } }
+        }
+        ast::Item::Parcelable(p) => {
+            annots("item", &p.annotations, &mut out);
+            for e in &p.elements { match e {
+                ast::ParcelableElement::Field(f) => annots(&f.name, &f.annotations, &mut out),
+                ast::ParcelableElement::Const(c) => annots(&c.name, &c.annotations, &mut out),
+            } }
+        }
+        ast::Item::Enum(e) => annots("item", &e.annotations, &mut out),
+    }
+    format!("[{}]", out.join(","))
+}
 fn ast_json(a: &ast::Aidl) -> String {
     let (tag, name, oneway, doc, sym, full) = match &a.item {
         ast::Item::Interface(i) => ("interface", &i.name, i.oneway, &i.doc, &i.symbol_range, &i.full_range),
         ast::Item::Parcelable(p) => ("parcelable", &p.name, false, &p.doc, &p.symbol_range, &p.full_range),
         ast::Item::Enum(e) => ("enum", &e.name, false, &e.doc, &e.symbol_range, &e.full_range),
     };
-    format!("{{\"package\":{},\"package_sym\":{},\"package_full\":{},\"key\":{},\"imports\":{},\"declared\":{},\"item\":{{\"tag\":{},\"name\":{},\"oneway\":{},\"doc\":{},\"sym\":{},\"full\":{}}},\"members\":{},\"symbols_all\":{},\"symbols_items\":{},\"symbols_elements\":{},\"types_walk\":{},\"walkers\":{}}}",
+    format!("{{\"package\":{},\"package_sym\":{},\"package_full\":{},\"key\":{},\"imports\":{},\"declared\":{},\"item\":{{\"tag\":{},\"name\":{},\"oneway\":{},\"doc\":{},\"sym\":{},\"full\":{}}},\"members\":{},\"symbols_all\":{},\"symbols_items\":{},\"symbols_elements\":{},\"types_walk\":{},\"walkers\":{},\"annotations\":{}}}",
         esc(&a.package.name), range(&a.package.symbol_range), range(&a.package.full_range), esc(&a.get_key()), imports_json(&a.imports), imports_json(&a.declared_parcelables),
         esc(tag), esc(name), oneway, opt(doc), range(sym), range(full), members(a),
-        symbols(a, SymbolFilter::All), symbols(a, SymbolFilter::ItemsOnly), symbols(a, SymbolFilter::ItemsAndItemElements), types_walk(a), methods_walk(a))
+        symbols(a, SymbolFilter::All), symbols(a, SymbolFilter::ItemsOnly), symbols(a, SymbolFilter::ItemsAndItemElements), types_walk(a), methods_walk(a), annots_json(a))
 }
 fn result_json(r: &ParseFileResult<String>) -> String {
     format!("{{\"id\":{},\"ast\":{},\"diags\":{}}}", esc(&r.id), match &r.ast { Some(a) => ast_json(a), None => "null".into() }, diags(&r.diagnostics))
